@@ -206,6 +206,7 @@ def c17(tier, seed):
               "transport: must be well formed with no protocol issue. " + SHAPE)
     ck.require("codec_probe.presence_subsets")
     ck.require("sim.client_packets_decoded", 1000)
+    ck.require("sim.reauthentications_started", 10)
     return ck.finish()
 
 
